@@ -1009,6 +1009,16 @@ def rule_slicearr(ctx):
                         lambda i: True, 2)
 
 
+def rule_slicesum(ctx):
+    """Shared with C06-COMBINE / C19-RESCALE (seed C02_10): slicing is one of the transformations; the
+    sliced tree contracts to the same value only if the per-slice results are recombined exactly — summed
+    by the exponent-aware adder, stacked at a common exponent with the factor `10 ** (own - largest)`."""
+    from .c06 import rule_combine as src
+
+    return C.reuse_rule(ctx, src, "C06-COMBINE", "C02-SLICESUM",
+                        "per-slice results of a sliced tree are recombined exactly", lambda i: True, 2)
+
+
 # ---- NODE ------------------------------------------------------------------
 
 
@@ -1340,5 +1350,5 @@ def rule_copy(ctx):
 
 
 RULES = [rule_keys, rule_deps, rule_lists, rule_closure, rule_reorder, rule_root, rule_cores, rule_corekey,
-         rule_topo, rule_multpair, rule_rebuild, rule_slicearr, rule_node,
+         rule_topo, rule_multpair, rule_rebuild, rule_slicearr, rule_slicesum, rule_node,
          rule_presurv, rule_pure, rule_copy, rule_preproc]
